@@ -547,6 +547,9 @@ def run(ctx):
     ctx.gen_tables = {"FrameTable.lean": extract.frame_table()}
     import translate                 # decision-logic functions re-translated from the source and proved equal to the model
     _tm, _tt = translate.wire(ctx, "C17")
+    import oncode_thms               # the property theorems stated on the regenerated definitions themselves (Props/OnCode)
+    _om, _ot = oncode_thms.wire("C17")
+    _tm, _tt = _tm + _om, _tt + _ot
     ctx.prove(["TLX.Props.C17"] + _tm)
     ctx.require_theorems(_tt)
     ctx.require_theorems(THEOREMS)
